@@ -127,12 +127,13 @@ pub fn orient_of(s: &Option<GdsStrans>) -> Result<Orient, StransErr> {
             return Err(StransErr::OutOfAlphabet(format!("magnification {m}")));
         }
     }
+    // whole quarter turns in any spelling: negative angles and angles beyond one turn name the same rotation
     let quarter = match s.angle {
         None => 0,
-        Some(a) if a == 0.0 => 0,
-        Some(a) if a == 90.0 => 1,
-        Some(a) if a == 180.0 => 2,
-        Some(a) if a == 270.0 => 3,
+        Some(a) if a.is_finite() && a.abs() <= 3600.0 && a.rem_euclid(360.0) == 0.0 => 0,
+        Some(a) if a.is_finite() && a.abs() <= 3600.0 && a.rem_euclid(360.0) == 90.0 => 1,
+        Some(a) if a.is_finite() && a.abs() <= 3600.0 && a.rem_euclid(360.0) == 180.0 => 2,
+        Some(a) if a.is_finite() && a.abs() <= 3600.0 && a.rem_euclid(360.0) == 270.0 => 3,
         Some(a) => return Err(StransErr::OutOfAlphabet(format!("angle {a}"))),
     };
     Ok(Orient { reflect: s.reflected, quarter })
